@@ -14,6 +14,9 @@ Only the standard library and the generated code are imported: `models.<package>
          (a default must not be shared between instances: C10 "the value produced by the generated default constructor")
   {"op":"roundtrip","id":..,"module":..,"cls":..,"doc":<json>}
       -> {"id","ok","enc"|"err","stage"}              json of `Root.from_json(doc)`          (C11)
+  {"op":"roundtrip2","id":..,"module":..,"cls":..,"first":<json>,"doc":<json>}
+      -> json of `Root.from_json(doc)` decoded AFTER `Root.from_json(first)` whose collections were then mutated in place
+         (no state may survive from one from_json to the next: C11 speaks of each document on its own)
   {"op":"encode","id":..,"module":..,"cls":..,"doc":<json>}
       -> the same, but encoding the dict `to_json()` returned instead of the object itself
 
@@ -54,13 +57,16 @@ def mutate(o, depth=0):
 
 
 def main():
-    root = sys.argv[1]
-    sys.path.insert(0, root)
+    # the generated tree is ONE package (<root>/__init__.py, <root>/models, <root>/cog): modules of a schema's second package
+    # are imported relatively (`from ..models import other`), which only resolves when `models` is not the top level
+    root = os.path.abspath(sys.argv[1])
+    top = os.path.basename(root)
+    sys.path.insert(0, os.path.dirname(root))
     sys.dont_write_bytecode = True
     encoder = None
     encoder_err = None
     try:
-        encoder = importlib.import_module("cog.encoder").JSONEncoder
+        encoder = importlib.import_module(top + ".cog.encoder").JSONEncoder
     except Exception as e:  # the generated runtime itself is broken: every command reports it
         encoder_err = short(e)
     mods = {}
@@ -70,7 +76,7 @@ def main():
             try:
                 path = os.path.join(root, "models", name + ".py")
                 compile(open(path).read(), path, "exec")      # what py_compile does, without writing a .pyc
-                mods[name] = (importlib.import_module("models." + name), None)
+                mods[name] = (importlib.import_module(top + ".models." + name), None)
             except BaseException as e:
                 if isinstance(e, (KeyboardInterrupt, SystemExit)):
                     raise
@@ -113,6 +119,15 @@ def main():
                     first = cls()
                     mutate(first)
                     obj = cls()
+                    stage = "encode"
+                    r["enc"] = encode(obj)
+                elif c["op"] == "roundtrip2":
+                    stage = "from_json"
+                    try:
+                        mutate(cls.from_json(c["first"]))
+                    except Exception:
+                        pass                      # the first document's own failure is reported by its own roundtrip
+                    obj = cls.from_json(c["doc"])
                     stage = "encode"
                     r["enc"] = encode(obj)
                 elif c["op"] in ("roundtrip", "encode"):
